@@ -179,6 +179,12 @@ where
 {
     fn write(&mut self, buf: &[u8]) -> std::io::Result<usize> {
         let total_len = (self.max_pdu_length + PDU_HEADER_SIZE) as usize;
+        if self.buffer.len() == total_len && !buf.is_empty() {
+            // a previous write filled the PDU exactly:
+            // send it before taking in more data
+            // (otherwise no byte of `buf` could be accepted)
+            self.dispatch_pdu()?;
+        }
         if self.buffer.len() + buf.len() <= total_len {
             // accumulate into buffer, do nothing
             self.buffer.extend(buf);
@@ -533,6 +539,7 @@ pub mod non_blocking {
             // Each call to `poll_write` on the underlying stream may or may not
             // write the whole of `self.buffer`, therefore we need to keep track
             // of how much we've written, this is done in `self.state`
+            'retry: loop {
             match self.state {
                 WriteState::Ready => {
                     // If we're in ready state, we can prepare another PDU
@@ -540,7 +547,7 @@ pub mod non_blocking {
                     if self.buffer.len() + buf.len() <= total_len {
                         // Still have space in `self.buffer`, accumulate into buffer
                         self.buffer.extend(buf);
-                        Poll::Ready(Ok(buf.len()))
+                        return Poll::Ready(Ok(buf.len()));
                     } else {
                         // `self.buffer` is full, fill in the rest of the
                         // buffer, prepare to send PDU
@@ -578,6 +585,11 @@ pub mod non_blocking {
                                     if written == this.buffer.len() {
                                         // If we wrote the whole buffer, reset `self.buffer`
                                         this.buffer.truncate(PDU_PDV_HEADER_SIZE);
+                                        if consumed == 0 && !buf.is_empty() {
+                                            // the buffer was already full on entry:
+                                            // now take in the caller's data
+                                            continue 'retry;
+                                        }
                                         return Poll::Ready(Ok(consumed));
                                     }
                                 }
@@ -620,6 +632,11 @@ pub mod non_blocking {
                                     // If we wrote the whole buffer, reset `self.buffer` and change state back to ready
                                     this.buffer.truncate(PDU_PDV_HEADER_SIZE);
                                     this.state = WriteState::Ready;
+                                    if consumed == 0 && !buf.is_empty() {
+                                        // the buffer was already full on entry:
+                                        // now take in the caller's data
+                                        continue 'retry;
+                                    }
                                     return Poll::Ready(Ok(consumed));
                                 }
                             }
@@ -633,6 +650,7 @@ pub mod non_blocking {
                         }
                     }
                 }
+            }
             }
         }
 
